@@ -1,6 +1,7 @@
 package main
 
 import (
+	"encoding/json"
 	"fmt"
 	"sync"
 	"sync/atomic"
@@ -440,6 +441,92 @@ func endToEnd(run *vk.Run, recovery bool, steps int) {
 
 // joinVersusDisconnect: Join calls racing with the disconnect of the same socket. Whatever
 // the interleaving, once both have returned the disconnected socket must be in no room.
+// staleMember: a room can hold an id that is not (or no longer, or not yet) in the socket store — the library
+// produces such ids itself when a namespace middleware joins a room and a later middleware rejects the
+// socket. A broadcast to that room must still reach every real member, whatever the iteration order.
+func staleMember(run *vk.Run, rounds int) {
+	run.Eval(1)
+	srv, err := rig.NewServer(nil, "")
+	if err != nil {
+		run.Inconclusive("stale-member: " + err.Error())
+		return
+	}
+	defer srv.Close()
+	nsp := srv.IO.Of("/")
+	nsp.Use(func(s sio.ServerSocket, h *sio.Handshake) any { s.Join("lobby"); return nil })
+	nsp.Use(func(s sio.ServerSocket, h *sio.Handshake) any {
+		var a struct {
+			Ghost bool `json:"ghost"`
+		}
+		json.Unmarshal(h.Auth, &a)
+		if a.Ghost {
+			return fmt.Errorf("rejected after joining")
+		}
+		return nil
+	})
+	// three rejected sockets leave stale ids in "lobby"
+	for i := 0; i < 3; i++ {
+		g, err := rawpeer.DialSIO(srv.URL, "websocket")
+		if err != nil {
+			run.Inconclusive("stale-member: dial: " + err.Error())
+			return
+		}
+		defer g.C.Abort()
+		if res, err := g.Connect("/", map[string]any{"ghost": true}, 20*time.Second); err != nil || res.OK {
+			run.Inconclusive("stale-member: the ghost was not rejected")
+			return
+		}
+	}
+	const n = 6
+	var peers []*rawpeer.SIO
+	for i := 0; i < n; i++ {
+		p, err := rawpeer.DialSIO(srv.URL, "websocket")
+		if err != nil {
+			run.Inconclusive("stale-member: dial: " + err.Error())
+			return
+		}
+		defer p.C.Abort()
+		if res, err := p.Connect("/", nil, 20*time.Second); err != nil || !res.OK {
+			run.Inconclusive("stale-member: connect failed")
+			return
+		}
+		peers = append(peers, p)
+	}
+	for round := 0; round < rounds; round++ {
+		nsp.To("lobby").Emit("lob", round)
+		nsp.Emit("fence", round) // untargeted: reaches everybody on a correct tree, after "lob" on each connection
+		var missed []int
+		for i, p := range peers {
+			from := 0
+			_, _, err := p.WaitPacket(from, 15*time.Second, func(pk *refcodec.Packet) bool {
+				v, ok := isEvent(pk, "fence")
+				return ok && v == int64(round)
+			})
+			if err != nil {
+				run.Inconclusive(fmt.Sprintf("stale-member: fence %d not seen by client %d", round, i))
+				return
+			}
+			seen := false
+			for _, sp := range p.Packets() {
+				if v, ok := isEvent(sp.P, "lob"); ok && v == int64(round) {
+					seen = true
+				}
+			}
+			if !seen {
+				missed = append(missed, i)
+			}
+		}
+		if len(missed) > 0 {
+			run.Violation(vk.Violation{Sub: "e2e-delivery", Fields: map[string]any{"kind": "missing", "via": "room-with-stale-member"},
+				What:    fmt.Sprintf("broadcast %d to room \"lobby\" (6 members + 3 ids of sockets that were rejected after a middleware had joined them) did not reach clients %v, although the untargeted fence emitted afterwards did", round, missed),
+				Witness: map[string]any{"round": round, "missed_clients": missed, "seed": run.Seed()}})
+			return
+		}
+	}
+	run.Count("stale_member_broadcasts", int64(rounds))
+	run.Distinct("e2e/stale-member")
+}
+
 func joinVersusDisconnect(run *vk.Run, trials int) {
 	srv, err := rig.NewServer(&sio.ServerConfig{}, "")
 	if err != nil {
